@@ -111,6 +111,8 @@ class ResultInterp(Interp):
             if name in ("numpy.asarray", "numpy.array", "numpy.float64", "float") and a:
                 return a[0]
             return Tagged(name, a, {k: v for k, v in kwargs.items() if k != "dtype"})
+        if name in ("numpy.all", "numpy.any") and args and isinstance(args[0], (list, tuple)) and all(isinstance(x, bool) for x in args[0]):
+            return all(args[0]) if name.endswith("all") else any(args[0])
         r.ext_calls.append((name, node))
         return Unknown(f"{name}(...)")
 
